@@ -93,7 +93,7 @@ class LedgerFactory:
     """What leaves the factory + what is installed: issuer (root of trust), device key and its
     issuer certificate, application hashes, authorized signer."""
 
-    def __init__(self, rng, legacy_signer=False):
+    def __init__(self, rng, legacy_signer=False, profile="seeded"):
         self.issuer = k1.Key.from_rng(rng)
         self.device = k1.Key.from_rng(rng)
         self.cert_header = rng.nz_bytes(10)
@@ -104,6 +104,10 @@ class LedgerFactory:
         self.signer_iteration = 1 + rng.int(0, 0xfffe)
         self.best_block = rng.nz_bytes(32)
         self.last_tx_hash = rng.nz_bytes(32)
+        sh = lambda x: L.shape(x, profile)       # noqa: E731  (boundary shapes of printed values)
+        self.ui_hash, self.signer_hash = sh(self.ui_hash), sh(self.signer_hash)
+        self.signer_iteration = sh((self.signer_iteration, 2))
+        self.best_block, self.last_tx_hash = sh(self.best_block), sh(self.last_tx_hash)
         self.legacy_signer = legacy_signer
         self.issuer_sig = self.issuer.sign(bytes([0x02]) + self.cert_header + self.device.pub65)
         self._sigs = {}
@@ -412,12 +416,16 @@ GenuineLedger.page_error = UI_PROT_INVALID
 class SgxPlatform:
     """PCK hierarchy + quoting enclave + powHSM enclave + its sealed wallet."""
 
-    def __init__(self, rng, auth_len=32, chain_len=3):
+    def __init__(self, rng, auth_len=32, chain_len=3, profile="seeded"):
         self.h = S.Hierarchy(rng)
         self.enclave = S.Enclave(rng, self.h, auth_len, chain_len)
         self.wallet = {p: k1.Key.from_rng(rng) for p in L.PATHS}
         self.best_block = rng.nz_bytes(32)
         self.last_tx_hash = rng.nz_bytes(32)
+        sh = lambda x: L.shape(x, profile)       # noqa: E731
+        self.best_block, self.last_tx_hash = sh(self.best_block), sh(self.last_tx_hash)
+        self.enclave.mrenclave, self.enclave.mrsigner = \
+            sh(self.enclave.mrenclave), sh(self.enclave.mrsigner)
         self.pin = b"abcd1234"
         h = hashlib.sha256()
         for p in L.PATHS:
